@@ -124,6 +124,15 @@ func timeAscending.CompareTo
 func timeDescending.CompareTo
   ensures r0 == ((tsec(conv(time.Time, t)) < tsec(conv(time.Time, other)) || (tsec(conv(time.Time, t)) == tsec(conv(time.Time, other)) && tnsec(conv(time.Time, t)) < tnsec(conv(time.Time, other)))) ? 1 : ((tsec(conv(time.Time, t)) == tsec(conv(time.Time, other)) && tnsec(conv(time.Time, t)) == tnsec(conv(time.Time, other))) ? 0 : 0 - 1))
 
+-- the order option: ascending exactly when the caller passed true (first value); no value or false: descending
+assume-func github.com/iotaledger/hive.go/ds/priorityqueue.New() (r)
+  ensures r != nil && fresh(r)
+func NewPriorityQueue
+  instantiate T: int
+  modifies nothing
+  ensures (len(ascending) > 0 && ascending[0]) ==> typeof(r0) == typeid(*priorityQueueAscending[T])
+  ensures !(len(ascending) > 0 && ascending[0]) ==> typeof(r0) == typeid(*priorityQueueDescending[T])
+
 -- Add: every element that is added wakes a poller - unconditionally: several pollers can be asleep on an empty queue, and
 -- the second of two quick additions finds the queue non-empty while the second poller is still asleep
 -- (checked for this statement only - opt only-ghost-asserts: the heap is container/heap's)
